@@ -56,3 +56,26 @@ package trie
 //@   panics when (len(hex) > 0 && hex[len(hex)-1] == 16 && (len(hex) - 1) % 2 != 0) || (!(len(hex) > 0 && hex[len(hex)-1] == 16) && len(hex) % 2 != 0)
 //@   ensures[C10] fresh(result)
 //@   nopanic[C10]
+
+// ---- database.go (C04): every lock taken is released on every return path --------------------
+// lockdepth(m) is a ghost counter incremented by Lock/RLock and decremented by Unlock/RUnlock
+// on the mutex at address m. A failed disk write must not leave the database locked.
+//@ func Database.Commit
+//@   requires db != nil && db.diskdb != nil
+//@   ensures[C04] @lockbalance lockdepth(addr(db.lock)) == old(lockdepth(addr(db.lock)))
+//@   loop 1 invariant[C04] lockdepth(addr(db.lock)) == old(lockdepth(addr(db.lock))) + 1
+
+//@ func Database.Dereference
+//@   requires db != nil
+//@   ensures[C04] @lockbalance lockdepth(addr(db.lock)) == old(lockdepth(addr(db.lock)))
+
+//@ func Database.Reference
+//@   requires db != nil
+//@   ensures[C04] @lockbalance lockdepth(addr(db.lock)) == old(lockdepth(addr(db.lock)))
+
+//@ func Database.Node
+//@   requires db != nil
+//@   ensures[C04] @lockbalance lockdepth(addr(db.lock)) == old(lockdepth(addr(db.lock)))
+
+//@ func Database.secureKey
+//@   opaque
